@@ -363,8 +363,21 @@ func (h *Handler) handleCopyMove(w http.ResponseWriter, r *http.Request) (status
 	if dst == "" {
 		return http.StatusBadGateway, errInvalidDestination
 	}
-	if dst == src {
+	// The FileSystem and the LockSystem resolve names with slashClean, so that
+	// "/a/", "/a/." and "//a" all name the resource "/a". Source and
+	// destination have to be compared in that form. Sections 9.8.5 and 9.9.4
+	// recommend 403 Forbidden when they are the same resource.
+	cleanSrc, cleanDst := slashClean(src), slashClean(dst)
+	if cleanDst == cleanSrc {
 		return http.StatusForbidden, errDestinationEqualsSource
+	}
+	// Overwriting a destination starts by deleting it. If the destination
+	// contains the source, that deletes the source before it is copied or
+	// moved. If the destination of a MOVE is inside the source, that deletes
+	// part of the source, and the move cannot succeed anyway. Refuse both
+	// before anything is modified.
+	if hasPathPrefix(cleanSrc, cleanDst) || (r.Method == "MOVE" && hasPathPrefix(cleanDst, cleanSrc)) {
+		return http.StatusForbidden, errDestinationOverlaps
 	}
 
 	ctx := r.Context()
@@ -410,6 +423,12 @@ func (h *Handler) handleCopyMove(w http.ResponseWriter, r *http.Request) (status
 		}
 	}
 	return moveFiles(ctx, h.FileSystem, src, dst, r.Header.Get("Overwrite") == "T")
+}
+
+// hasPathPrefix reports whether the slash-cleaned path name is dir or lies
+// below dir, which is also slash-cleaned.
+func hasPathPrefix(name, dir string) bool {
+	return name == dir || dir == "/" || strings.HasPrefix(name, dir+"/")
 }
 
 func (h *Handler) handleLock(w http.ResponseWriter, r *http.Request) (retStatus int, retErr error) {
@@ -738,6 +757,7 @@ func StatusText(code int) string {
 
 var (
 	errDestinationEqualsSource = errors.New("webdav: destination equals source")
+	errDestinationOverlaps     = errors.New("webdav: destination overlaps source")
 	errDirectoryNotEmpty       = errors.New("webdav: directory not empty")
 	errInvalidDepth            = errors.New("webdav: invalid depth")
 	errInvalidDestination      = errors.New("webdav: invalid destination")
